@@ -16,12 +16,23 @@ Three bounded-exhaustive explorations on the real implementation:
     (`SELECT expr FROM #`, folded by the compiler) and once per row from a one-row table holding the
     same values: equal value and equal announced datatype (and equal to the reference evaluator).
 (3) history independence (E-bfs style, depth bounded, no state merging).  ALL sequences of length <= d
-    over an alphabet of 14 executions on ONE connection -- shared parsed statements re-executed with
-    other parameters (positional, named), executemany, aggregate, PIVOT, IN-sub-query, FROM-sub-query,
-    `balance` referenced twice, FROM OPEN/CLOSE, a failing statement, a second cursor: every step's
-    outcome (rows, description, or exception class) must equal the outcome of the same (statement,
-    parameters) on a FRESH connection with a FRESHLY parsed statement, and the source data (harness
-    rows, ledger entries) must be unchanged after every history.
+    over an alphabet of 25 executions on ONE connection -- shared parsed statements re-executed with
+    other parameters (positional, named), executemany, aggregate, PIVOT, IN-sub-query, FROM-sub-queries,
+    `balance` referenced twice, FROM OPEN/CLOSE, a failing statement, a second cursor, PRINT, a shell
+    session, aggregates over persistent objects, and the SAME regular expression texts ('a', 'b', 'B',
+    'o', '(a)|(b)') used by case-sensitive functions (grep, grepn, subst, findfirst) in some events and by
+    the case-insensitive matches (~, !~) in others, on data where the case matters ('Ab' against 'a',
+    'b' against 'B', 'Assets:...' against 'a'): every step's outcome (rows, description, or exception
+    class) must equal the outcome of the same (statement, parameters) on a FRESH connection with a
+    FRESHLY parsed statement in a pristine process, and the source data (harness rows, ledger entries)
+    must be unchanged after every history.
+    Results are HELD: every execution through Connection.execute() / a new cursor returns a result of
+    its own; its description and rowcount are read right after the execution (non-consuming) and again,
+    with the rows, only after ALL executions of the history -- "other executions in between never
+    change it" is thus checked on results that are alive while later statements execute (the last step
+    of every history, and so every prefix history's last step, is read right after its execution).
+    Only the event executing on the explicit long-lived second cursor is read at once: executing again
+    on the same cursor replaces that cursor's result by the DB-API contract.
 """
 import copy
 import itertools
@@ -304,14 +315,18 @@ class World:
         self.FAIL = select([(col('nosuch'), None)], from_='t')
         self.BALIN = fresh_parse("SELECT balance, account IN (SELECT account FROM #postings WHERE number > 100) AS m FROM #postings WHERE year = 2019 AND month = 2")
         # the same regular expression used by functions with different matching semantics (search / anchored match / ~)
-        self.GREP = select([(F('grep', C('b'), k), 'g'), (F('grepn', C('(a)|(b)'), k, C(0)), 'gn'), (A.Match(k, C('b')), 'm')], from_='t')
+        # GREP also uses the text 'a' case-SENSITIVELY on data where the case matters (k = 'Ab': grep('a', k) is NULL, k ~ 'a' is
+        # true); MATCHONLY, SUBST and FINDFIRST use the same text, so every order of first use is a history
+        self.GREP = select([(F('grep', C('b'), k), 'g'), (F('grepn', C('(a)|(b)'), k, C(0)), 'gn'), (A.Match(k, C('b')), 'm'), (F('grep', C('a'), k), 'ga')], from_='t')
         # the SAME pattern texts through the case-insensitive operator only (a matcher cached by pattern text alone would
         # carry the flags of whichever construct used the text first)
-        self.MATCHONLY = select([(k, None), (A.Match(k, C('b')), 'm'), (A.NotMatch(k, C('(a)|(b)')), 'n'), (A.Match(k, C('o')), 'o')], from_='t')
-        self.FINDFIRST = fresh_parse("SELECT findfirst('o', tags) AS f, findfirst('b', other_accounts) AS g, grep('o', narration) AS n FROM #postings WHERE year = 2019 AND month <= 2")
+        self.MATCHONLY = select([(k, None), (A.Match(k, C('b')), 'm'), (A.NotMatch(k, C('(a)|(b)')), 'n'), (A.Match(k, C('o')), 'o'),
+                                 (A.Match(k, C('a')), 'a'), (A.NotMatch(k, C('B')), 'nb')], from_='t')
+        self.FINDFIRST = fresh_parse("SELECT findfirst('o', tags) AS f, findfirst('b', other_accounts) AS g, grep('o', narration) AS n, findfirst('a', other_accounts) AS h "
+                                     "FROM #postings WHERE year = 2019 AND month <= 2")
         self.PRINTQ = fresh_parse('PRINT FROM year = 2019 AND month = 1')
         self.ENTRIES = fresh_parse("SELECT type, date FROM #entries WHERE type != 'transaction' AND type != 'open' ORDER BY date, type")
-        self.SUBST = select([(F('subst', C('b'), C('X'), k), 's'), (F('upper', k), 'u')], from_='t')
+        self.SUBST = select([(F('subst', C('b'), C('X'), k), 's'), (F('upper', k), 'u'), (F('subst', C('a'), C('Y'), k), 'sa'), (F('grep', C('B'), k), 'gB')], from_='t')
         self.SUMINV = select([(k, None), (F('sum', col('inv')), 's'), (F('sum', col('pos')), 'p'), (F('first', col('inv')), 'f'), (F('last', col('inv')), 'l')],
                              from_='w', group_by=A.GroupBy([k], None))
 
@@ -394,15 +409,39 @@ class _TextResult:
         return [(self.text,)]
 
 
-def run_event(fn):
+def _read(cur):
+    rows = cur.fetchall()
+    return ('ok', [tuple(repr(x) for x in r) for r in rows], _descr(cur))
+
+
+def _descr(cur):
+    return [(d.name, d.datatype.__name__) for d in (cur.description or [])]
+
+
+def run_event(fn, hold=False):
+    """Outcome of one execution.  With hold=True a successful execution is NOT read: ('held', result object,
+    description and rowcount read at once -- both are non-consuming) is returned and the caller reads it later."""
     try:
         cur = fn()
-        rows = cur.fetchall()
-        return ('ok', [tuple(repr(x) for x in r) for r in rows], [(d.name, d.datatype.__name__) for d in (cur.description or [])])
+        if hold:
+            return ('held', cur, _descr(cur), getattr(cur, 'rowcount', None))
+        return _read(cur)
     except beanquery.Error as e:
         return ('rejected', type(e).__name__, str(e))
     except Exception as e:
         return ('crash', type(e).__name__, str(e)[:200])
+
+
+def read_held(cur):
+    try:
+        return _read(cur), getattr(cur, 'rowcount', None)
+    except Exception as e:
+        return ('crash', type(e).__name__, str(e)[:200]), None
+
+
+# events executing on an explicit, long-lived cursor: executing again on the SAME cursor legitimately replaces its result
+# (DB-API), so their result is read at once; every other event returns a result of its own, which is held
+READ_AT_ONCE = ('cursor2:',)
 
 
 def _fresh_one(i):
@@ -436,6 +475,9 @@ _EXECUTED_IN_PROCESS = []      # distinct events executed by earlier histories o
 
 
 def check_history(hist, fresh, acc, names, warmup=()):
+    """Executes the history; the result of every step is HELD (description and rowcount are read at once, the rows only
+    after ALL executions of the history, in order of execution): a result obtained earlier must not be changed by the
+    executions in between.  Histories of length 1 and the last step of every history are read right after execution."""
     for i in warmup:               # replay only: events an earlier history of the same process had executed
         run_event(World().events()[i][1])
     w = World()
@@ -443,18 +485,48 @@ def check_history(hist, fresh, acc, names, warmup=()):
     evs = w.events()
     acc.count('histories')
     earlier = list(_EXECUTED_IN_PROCESS)
+    case = {'kind': 'history', 'history': list(hist), 'earlier_in_process': earlier}
+
+    def differs(step, got):
+        i = hist[step]
+        prior = [names[j] for j in hist[:step]]
+        kind = 'fails' if got[0] != 'ok' and fresh[i][0] == 'ok' else 'differs'
+        acc.violation(f'history:{names[i]}:{kind}', f'after {prior!r}, {names[i]} gives {str(got)[:300]}; on a fresh connection with a freshly parsed statement '
+                      f'in a pristine process: {str(fresh[i])[:300]} (events executed earlier in this process on other connections: {[names[j] for j in earlier]!r})', case)
+
+    held = []
     for step, i in enumerate(hist):
-        got = run_event(evs[i][1])
+        got = run_event(evs[i][1], hold=not names[i].startswith(READ_AT_ONCE))
         if i not in _EXECUTED_IN_PROCESS:
             _EXECUTED_IN_PROCESS.append(i)
         acc.count('executions')
         acc.count('history_steps')
+        if got[0] == 'held':
+            # what can be read without consuming the result: the description
+            if fresh[i][0] != 'ok' or got[2] != fresh[i][2]:
+                differs(step, ('ok', '<rows not read>', got[2]))
+                return
+            held.append((step, got[1], got[2], got[3]))
+        elif got != fresh[i]:
+            differs(step, got)
+            return
+    for n, (step, cur, descr, rowcount) in enumerate(held):
+        i = hist[step]
+        later = [names[j] for j in hist[step + 1:]]
+        try:
+            now = (_descr(cur), getattr(cur, 'rowcount', None))
+        except Exception as e:
+            now = ('crash', type(e).__name__)
+        got, _ = read_held(cur)
+        acc.count('held_results_read_after_later_executions' if later else 'results_read_at_once')
+        shared = any(cur is other for m, (_, other, _, _) in enumerate(held) if m != n)
+        if now != (descr, rowcount) or (got != fresh[i] and shared):
+            acc.violation('history:held-result-changed', f'the result of {names[i]} (step {step} of {[names[j] for j in hist]!r}) read after the later executions {later!r}: '
+                          f'description/rowcount {str(now)[:200]}, right after its execution {str((descr, rowcount))[:200]}; rows {str(got)[:200]}, '
+                          f'expected {str(fresh[i])[:200]}' + ('; the same result object was returned by another execution' if shared else ''), case)
+            return
         if got != fresh[i]:
-            prior = [names[j] for j in hist[:step]]
-            kind = 'fails' if got[0] != 'ok' and fresh[i][0] == 'ok' else 'differs'
-            acc.violation(f'history:{names[i]}:{kind}', f'after {prior!r}, {names[i]} gives {str(got)[:300]}; on a fresh connection with a freshly parsed statement '
-                          f'in a pristine process: {str(fresh[i])[:300]} (events executed earlier in this process on other connections: {[names[j] for j in earlier]!r})',
-                          {'kind': 'history', 'history': list(hist), 'earlier_in_process': earlier})
+            differs(step, got)
             return
     if w.snapshot() != before:
         acc.violation('history:source-mutated', f'history {[names[j] for j in hist]!r} changed the source data', {'kind': 'history', 'history': list(hist)})
@@ -529,9 +601,13 @@ def run(ctx):
         'parameter_assignments': n['param_assignments'], 'parameter_outcomes_ok': n['outcome_ok'], 'parameter_outcomes_rejected': n['outcome_rejected'],
         'parameter_outcomes_dataerror': n['outcome_dataerror'], 'reference_compared': n['ref_compared'],
         'fold_expressions': n['fold_expressions'], 'fold_assignments': n['fold_assignments'], 'fold_outside_domain': n['fold_outside_domain'],
-        'histories': n['histories'], 'history_steps': n['history_steps'], 'history_alphabet': [nm for nm, _ in World().events()],
+        'histories': n['histories'], 'history_steps': n['history_steps'],
+        'held_results_read_after_later_executions': n['held_results_read_after_later_executions'], 'results_read_at_once': n['results_read_at_once'],
+        'regex_texts_shared_by_case_sensitive_and_insensitive_uses': ['a', 'b', 'B', 'o', '(a)|(b)'], 'history_alphabet': [nm for nm, _ in World().events()],
         'distinct_end_states_observed': len(acc.sets['end_states']), 'fresh_outcome_kinds': sorted(acc.sets['fresh_outcome_kinds']),
         'samples': acc.samples,
     }
     return Result(cov, acc.violations, assumptions=['parameter container kind fits the placeholder style', 'NULL values are not substituted as constants where an overload must be chosen (folding)',
-                                                    'results compared by repr for ledger values (Inventory objects)'])
+                                                    'results compared by repr for ledger values (Inventory objects)',
+                                                    'every Connection.execute() / new-cursor execution yields a result of its own that stays readable (description, rowcount, rows) while later statements '
+                                                    'execute; re-executing on one explicit cursor replaces that cursor\'s result (read at once)'])
